@@ -204,8 +204,6 @@ Proof.
   apply shutdown_regs_quiet; auto.
 Qed.
 
-Definition no_shutdown_failure (f : oracle) : Prop := forall u, f (SShutdown u) = false.
-
 Definition shutdown_fine (f : oracle) (a : app) : Prop := snd (shutdown_app f a) = None.
 
 Lemma shutdown_regs_fine f rs : no_shutdown_failure f -> sub_all (shutdown_fine f) rs ->
@@ -437,25 +435,24 @@ Proof.
   - destruct (startup_regs (startup_app f) f regs) as [[l1' xs] r1'] eqn:Er.
     apply startup_regs_flat in Er as (-> & F1 & F2); auto.
     injection E as <- <- <-. rewrite entered_app, F1, app_nil_r.
-    destruct r1'; simpl.
-    + destruct (ctx_cleanup f (entered l0)) as [l r] eqn:Ec. apply ctx_cleanup_spec in Ec as (C1 & _). simpl. auto.
+    destruct r1'; cbn [is_none].
+    + cbn [xt_exits]. destruct (ctx_cleanup f (entered l0)) as [l r] eqn:Ec. apply ctx_cleanup_spec in Ec as (C1 & _). cbn [fst]. auto.
     + assert (Hs : snd (shutdown_app f (App regs)) = None).
       { change (shutdown_app f (App regs)) with (shutdown_regs (shutdown_app f) f regs). apply shutdown_regs_flat; auto. }
       destruct (shutdown_app_quiet f (App regs)) as (Q1 & Q2).
-      destruct (shutdown_app f (App regs)) as [l2 r2]. simpl in Hs, Q1, Q2. subst r2.
-      rewrite cleanup_app_unfold. simpl xt_exits. simpl xt_subs.
+      destruct (shutdown_app f (App regs)) as [l2 r2]. cbn [fst snd] in Hs, Q1, Q2. subst r2.
+      rewrite cleanup_app_unfold. cbn [xt_exits xt_subs].
       destruct (ctx_cleanup f (entered l0)) as [l r] eqn:Ec. apply ctx_cleanup_spec in Ec as (C1 & C2 & _).
-      destruct r; simpl.
-      * rewrite exited_app. simpl. rewrite Q2, C1. auto.
+      destruct r; cbn [fst].
+      * change (EPre :: l2 ++ ESrv :: l) with ([EPre] ++ l2 ++ [ESrv] ++ l).
+        rewrite !exited_app, Q2, C1. reflexivity.
       * destruct (cleanup_regs_flat (cleanup_app f) f regs Hflat []) as (G1 & G2).
-        destruct (cleanup_regs (cleanup_app f) f regs []) as [l3 r3]. simpl in *.
-        rewrite !exited_app. simpl. rewrite exited_app, Q2, C1, G2, app_nil_r. auto.
+        destruct (cleanup_regs (cleanup_app f) f regs []) as [l3 r3]. cbn [fst] in *.
+        change (EPre :: l2 ++ ESrv :: l ++ l3) with ([EPre] ++ l2 ++ [ESrv] ++ l ++ l3).
+        rewrite !exited_app, Q2, C1, G2, app_nil_r. reflexivity.
 Qed.
 
 (* ---------- trees: liveness when nothing fails after a successful start-up ---------- *)
-
-Definition no_teardown_failure (f : oracle) : Prop :=
-  (forall c, f (SExit c) = false) /\ (forall u, f (SCleanup u) = false).
 
 Definition cleanup_full (f : oracle) (a : app) : Prop :=
   forall l x, startup_app f a = (l, x, None) ->
@@ -470,12 +467,12 @@ Proof.
   - intros [= <- <-]. auto.
   - destruct r0 as [c|u|u|u|b]; try apply IH.
     + destruct (f (SStartup u)); [discriminate|].
-      destruct (startup_regs (startup_app f) f t) as [[l' xs'] r'] eqn:E. intros [= <- <- ->]. eapply IH; eauto.
+      destruct (startup_regs (startup_app f) f t) as [[l' xs'] r'] eqn:E. intros [= <- <- ->]. apply (IH _ _ eq_refl).
     + rewrite Hc. intros E. destruct (IH _ _ E) as (I1 & I2).
       destruct (cleanup_regs (cleanup_app f) f t xs) as [l' r']. simpl in *. auto.
     + destruct (startup_app f b) as [[lb xb] rb] eqn:Eb. destruct rb; [discriminate|].
       destruct (startup_regs (startup_app f) f t) as [[l' xs'] r'] eqn:E. intros [= <- <- ->].
-      simpl hd. simpl tl. destruct (Hr _ _ Eb) as (B1 & B2). destruct (IH _ _ E) as (I1 & I2).
+      simpl hd. simpl tl. destruct (Hr _ _ Eb) as (B1 & B2). destruct (IH _ _ eq_refl) as (I1 & I2).
       destruct (cleanup_app f b xb) as [lb' rb']. simpl in B1, B2. subst rb'.
       destruct (cleanup_regs (cleanup_app f) f t xs') as [l'' r'']. simpl in *.
       rewrite exited_app, B2, I2. auto.
@@ -524,4 +521,88 @@ Proof.
   intros E. destruct (via_apprunner_parts f a _ _ _ E) as (_ & P2). rewrite P2. simpl is_none.
   rewrite runner_cleanup_unfold.
   destruct (ctx_cleanup f (xt_exits x)) as [lc rc] eqn:Ec. apply ctx_cleanup_spec in Ec as (C1 & _). auto.
+Qed.
+
+(* ---------- statements in the form used by Props/C20.v ---------- *)
+
+Lemma context_mechanism f cs l ex r :
+  ctx_startup f cs [] = (l, ex, r) ->
+  ex = entered l /\
+  (r = None -> ex = cs) /\
+  (forall e, r = Some e -> exists p c q, cs = p ++ c :: q /\ ex = p /\ e = ErrStep (SEnter c) /\ f (SEnter c) = true) /\
+  (forall l' r', ctx_cleanup f ex = (l', r') -> exited l' = rev ex /\ entered l' = []).
+Proof.
+  intros E. apply ctx_startup_spec in E as (E1 & E2 & E3 & E4). simpl in E1. repeat split.
+  - auto.
+  - intros Hr. rewrite E1. auto.
+  - intros e He. destruct (E4 e He) as (p & c & q & H1 & H2 & H3 & H4). exists p, c, q. rewrite E1. auto.
+  - apply ctx_cleanup_spec in H. apply H.
+  - apply ctx_cleanup_spec in H. apply H.
+Qed.
+
+Lemma exit_order f a l1 x r1 :
+  startup_app f a = (l1, x, r1) ->
+  entered (via_apprunner f a) = xt_started x /\
+  subseq (exited (via_apprunner f a)) (xt_cleanup_order x) /\
+  Permutation (xt_cleanup_order x) (xt_started x).
+Proof.
+  intros E. destruct (via_apprunner_parts f a _ _ _ E) as (P1 & P2).
+  destruct (startup_app_spec f a _ _ _ E) as (S1 & _).
+  rewrite P1, P2, S1. repeat split. apply runner_cleanup_sub. apply xt_orders_perm.
+Qed.
+
+Lemma flat_iff f a : flat a = true -> no_shutdown_failure f ->
+  exited (via_apprunner f a) = rev (entered (via_apprunner f a)) /\
+  exited (fst (via_run_app f a)) = rev (entered (fst (via_run_app f a))) /\
+  cleanup_iff_started (via_apprunner f a).
+Proof.
+  intros H1 H2. rewrite entry_points_agree. assert (H := flat_exact f a H1 H2). repeat split; auto.
+  intros c. rewrite H. apply perm_count. symmetry. apply Permutation_rev.
+Qed.
+
+Lemma tree_iff f a l x :
+  no_shutdown_failure f -> no_teardown_failure f -> startup_app f a = (l, x, None) ->
+  exited (via_apprunner f a) = xt_cleanup_order x /\
+  exited (fst (via_run_app f a)) = xt_cleanup_order x /\
+  cleanup_iff_started (via_apprunner f a).
+Proof.
+  intros H1 H2 E. rewrite entry_points_agree. destruct (tree_exact f a H1 H2 _ _ E) as (T1 & T2 & T3).
+  repeat split; auto. intros c. apply perm_count; auto.
+Qed.
+
+(* witnesses for the three ways in which the unchanged code loses a started context *)
+Definition w_startup_app : app := App [RSub (App [RCtx 1]); RSu 101].
+Definition w_startup_f : oracle := fails [SStartup 101].
+Definition w_cleanup_app : app := App [RCtx 1; RSub (App [RCtx 2])].
+Definition w_cleanup_f : oracle := fails [SExit 1].
+Definition w_shutdown_app : app := App [RCtx 1; RSd 201].
+Definition w_shutdown_f : oracle := fails [SShutdown 201].
+
+Lemma refuted_startup : ~ cleanup_iff_started (via_apprunner w_startup_f w_startup_app).
+Proof. intro H. specialize (H 1). vm_compute in H. discriminate. Qed.
+Lemma refuted_cleanup : ~ cleanup_iff_started (via_apprunner w_cleanup_f w_cleanup_app).
+Proof. intro H. specialize (H 2). vm_compute in H. discriminate. Qed.
+Lemma refuted_shutdown : ~ cleanup_iff_started (via_apprunner w_shutdown_f w_shutdown_app).
+Proof. intro H. specialize (H 1). vm_compute in H. discriminate. Qed.
+
+(* order of the phases of a shutdown after a successful start-up: connections are told to close before
+   the on_shutdown receivers run, and are shut down before any cleanup context is torn down *)
+Lemma phase_order f a l1 x :
+  startup_app f a = (l1, x, None) -> snd (shutdown_app f a) = None ->
+  exists l2 l3 r3,
+    via_apprunner f a = l1 ++ fst (site_phase f) ++ EPre :: l2 ++ ESrv :: l3 ++ raised_cleanup r3 /\
+    l2 = fst (shutdown_app f a) /\ cleanup_app f a x = (l3, r3) /\
+    exited l1 = [] /\ exited l2 = [] /\ exited (via_apprunner f a) = exited l3.
+Proof.
+  intros E Hs. destruct (startup_app_spec f a _ _ _ E) as (_ & S2).
+  destruct (shutdown_app_quiet f a) as (_ & Q2).
+  unfold via_apprunner. rewrite E. cbn [is_none raised_setup]. rewrite runner_cleanup_unfold.
+  destruct (shutdown_app f a) as [l2 r2]. cbn [fst snd] in *. subst r2.
+  destruct (cleanup_app f a x) as [l3 r3].
+  exists l2, l3, r3. repeat split; auto.
+  - cbn [List.app]. rewrite <- !app_assoc. reflexivity.
+  - cbn [List.app]. rewrite !exited_app, S2, exited_site. cbn [List.app].
+    change (exited (EPre :: (l2 ++ ESrv :: l3) ++ raised_cleanup r3)) with (exited ((l2 ++ ESrv :: l3) ++ raised_cleanup r3)).
+    rewrite !exited_app, Q2, exited_raised_cleanup. cbn [List.app].
+    change (exited (ESrv :: l3)) with (exited l3). rewrite app_nil_r. reflexivity.
 Qed.
